@@ -76,3 +76,62 @@ def cval_fixpoint_canary(H, case):
     K.lenient()
     H.call(m.set_raw, case[1], raw)
     H.check("canary_first_cycle_identity", H.call(m.get_raw, case[1]) == raw)
+
+
+# ------------------------------------------------------------------------------- purity / determinism
+
+from rv.project import Project  # noqa: E402
+from rv.synth import Synth  # noqa: E402
+
+from . import rw  # noqa: E402
+
+
+def _purity_cases(tier):
+    out = []
+    for c in K.module_classes():
+        if c.mtype == "Output":
+            continue
+        out.append((K.cls_id(c), K.cls_id(c)))
+    return out
+
+
+def _build_any(H, cname):
+    from .c01 import _build_single
+
+    if cname == "MetaModule":
+        from .c15 import build_metamodule
+
+        m = build_metamodule(H, 5)
+        # a stored user-controller value that differs from the embedded controller it is mapped to
+        return m
+    m = _build_single(H, cname, in_project=True)
+    rw.sym_payload(H, m)
+    return m
+
+
+@contract(
+    "saving_is_pure_and_deterministic", ["C05", "C17"], cases=_purity_cases,
+    targets=["rv.synth:Synth.chunks", "rv.project:Project.chunks", "rv.container:Container.write_to",
+             "rv.modules.module:Module.iff_chunks", "rv.modules.*:<Type>.specialized_iff_chunks",
+             "rv.modules.metamodule:MetaModule.recompute_controller_attachment"],
+)
+def saving_is_pure_and_deterministic(H, cname):
+    """For a module with symbolic state (all fields, controllers, options, payload), inside a project:
+    ensures: the structural snapshot of the whole project (every attribute reachable from it) is the
+    same before and after Project.write_to and after Synth(module).write_to (frame: the writers modify
+    nothing), and writing twice yields identical bytes (determinism)."""
+    m = _build_any(H, cname)
+    p = Project()
+    p.attach_module(m)
+    before = K.snapshot(p, depth=12)
+    data1 = rw.write_container(H, p)
+    mid = K.snapshot(p, depth=12)
+    H.check("project_save_changes_nothing", H.eq(mid, before))
+    data2 = rw.write_container(H, p)
+    H.check("second_project_save_identical_bytes", H.eq(data2, data1))
+    s1 = rw.write_container(H, Synth(m))
+    after = K.snapshot(p, depth=12)
+    H.check("synth_save_changes_nothing", H.eq(after, before))
+    s2 = rw.write_container(H, Synth(m))
+    H.check("second_synth_save_identical_bytes", H.eq(s2, s1))
+    H.cover("reached")
